@@ -149,9 +149,19 @@ def replay(req):
             else:
                 out["clause_holds"] = None
         elif cl["kind"] == "raises":
+            # "raises E exactly when w", read together with the other raises clauses of the contract (an exception class may
+            # be a subclass of several declared classes): (1) w => an exception matching E is raised; (2) a raised exception
+            # matching E must be justified by SOME clause whose class it matches and whose condition holds (or be in may_raise)
             w = ev(cl["expr"])
             raised = out["outcome"] == "raise" and excmatch(out["exc"], cl["exc"])
-            out["clause_holds"] = (w == raised)
+            ok = True
+            if w and not raised:
+                ok = False
+            if raised and not w:
+                others = [c2 for c2 in cl.get("all_raises", []) if excmatch(out["exc"], c2["exc"]) and ev(c2["expr"])]
+                allowed = any(excmatch(out["exc"], e) for e in cl.get("may_raise", []))
+                ok = bool(others) or allowed
+            out["clause_holds"] = ok
             out["when"] = w
         elif cl["kind"] == "unexpected":
             out["clause_holds"] = not (out["outcome"] == "raise" and out["exc"] == cl["exc"].split(".")[-1])
